@@ -31,7 +31,7 @@ KEEP = os.environ.get("VERIF_KEEP", "0") != "0"
 
 CHECK_FLAGS = ["--bounds-check", "--pointer-check", "--pointer-overflow-check",
                "--signed-overflow-check", "--conversion-check", "--div-by-zero-check",
-               "--pointer-primitive-check"]
+               "--pointer-primitive-check", "--drop-unused-functions", "--slice-formula"]
 
 
 class Undecided(Exception):
